@@ -60,12 +60,16 @@ def run(name, tier="quick"):
     assert not out.strip(), "/repo not clean: " + out
     rc, out = sh("git -C /repo apply %s" % os.path.join(d, "patch.diff"))
     assert rc == 0, out
+    ev = os.path.join(VERIF, "evidence", "%s.json" % prop)
+    saved = open(ev).read() if os.path.exists(ev) else None
     try:
         t = time.time()
         rc, out = sh("./check %s --tier %s" % (prop, tier), cwd=VERIF, timeout=7200)
         dt = time.time() - t
     finally:
         sh("git -C /repo checkout -- .")
+        if saved is not None:
+            open(ev, "w").write(saved)
     viol = [l for l in out.splitlines() if l.startswith("VIOLATION")]
     print("%s (%s, %s): exit=%d %.0fs %s" % (name, prop, tier, rc, dt, viol[:1]))
     meta.setdefault("runs", {})[tier] = {"exit": rc, "violation_line": viol[:1], "wall_s": round(dt)}
